@@ -4,7 +4,7 @@ import math
 
 import numpy as np
 
-from .. import common as C, gen, scen
+from .. import common as C, gen, scen, translators
 from ..runner import Check
 
 
@@ -41,7 +41,7 @@ def run_real(shape, direction, s, n_steps, initialize=None):
 
 
 def run():
-    chk = Check("C16", props_modules=["GFO.Props.C16", "GFO.Props.GridRuns"])
+    chk = Check("C16", props_modules=["GFO.Props.C16", "GFO.Props.GridRuns", "GFO.Gen.GridGenCheck"], gen_steps=(translators.gen_grid,))
     chk.build_and_audit()
     r = C.rng("C16")
     quick = C.tier() != "thorough"
